@@ -114,7 +114,7 @@ def cmd_import(src, sid):
 
 def cmd_run(ids, tier, all_checks):
     sdir = os.path.join(ROOT, "seeded")
-    ids = ids or sorted(os.listdir(sdir))
+    ids = ids or sorted(os.listdir(sdir), key=lambda x: (x.split('-')[0], int(x.split('-')[1])))
     man = json.load(open(os.path.join(ROOT, "MANIFEST.json")))
     claimed = [c["property_id"] for c in man["checks"]]
     for sid in ids:
